@@ -123,10 +123,13 @@ def cases(tier):
         out.append(("sidgrammar", backend, "", (), tier))
         out.append(("framekinds", backend, "", (), tier))
         out.append(("echo", backend, "", (), tier))
+    out += SCHEDMODE.cases(tier)
     return out
 
 
 def describe(case):
+    if case[0] == "sched":
+        return SCHEDMODE.describe(case)
     return {"mode": case[0], "backend": case[1], "pos": case[2], "packets": list(case[3]), "tier": case[4]}
 
 
@@ -469,7 +472,61 @@ def run_echo(case):
     return viol, n
 
 
+# ---------------------------------------------------------------------------------------------------
+# Several connections at once: the same event serialised for several receivers (stored answers and live pushes interleaved) stays
+# verbatim and every frame carries the receiver's own subscription id.
+S_A = make_event("A", 1, 800, [["t", 'q"uote'], ["e", "ab" * 32, "wss://r"], ["p", PK["B"]]], 'first \\ "event" \u2028 \U0001f600')
+S_B = make_event("B", 30000, 801, [["d"], ["t", ""]], "second event, bare d tag")
+S_PRE = make_event("A", 1, 700, [["t", "x"]], "stored before")
+S_SCRIPTS = {
+    "two_subscribers": [("c1", ["REQ", 'su"b', {"kinds": [1, 30000]}]), ("c2", ["REQ", "\\", {"kinds": [1]}]), ("c3", ["EVENT", S_A]), ("c3", ["EVENT", S_B])],
+    "subscribe_while_published": [("c3", ["EVENT", S_A]), ("c1", ["REQ", "a", {"kinds": [1]}]), ("c2", ["REQ", "b", {"authors": [PK["A"]]}]), ("c3", ["EVENT", S_B]),
+                                  ("c1", ["REQ", "c", {"kinds": [30000]}])],
+}
+
+
+def _s_build(name, backend, policy):
+    from ..explorer import Scenario
+
+    def setup(w):
+        f = w.connect("setup", "9.9.9.9")
+        w.run(1e6)
+        w.send("setup", ["EVENT", S_PRE], 1e6)
+        f.drop()
+        w.run(1e6)
+        del w.conns["setup"]
+
+    return Scenario("%s%s|%s" % (name, "@fair" if policy == "fair" else "", backend), backend, [("c1", "1.1.1.1"), ("c2", "2.2.2.2"), ("c3", "3.3.3.3")],
+                    S_SCRIPTS[name], storage_options={"stats_interval": 1e15}, setup=setup, horizon=30.0, policy=policy)
+
+
+def _s_judge(x, name, backend, viol, cid, sig):
+    known = {e["id"]: e for e in (S_A, S_B, S_PRE)}
+    own = {}
+    for cn, fr in S_SCRIPTS[name]:
+        if fr[0] == "REQ":
+            own.setdefault(cn, set()).add(fr[1])
+    for cn, c in x.world.conns.items():
+        raws = [p for k, _, p in c.transcript if k == "send"]
+        for m in check_frames(raws, viol, cid, sig + "|" + cn):
+            if m[0] in ("EVENT", "EOSE") and m[1] not in own.get(cn, set()):
+                viol.append({"case": cid, "clause": "sub-id-verbatim", "sig": sig + "|" + cn, "detail": "%s received a %s frame under %r, its subscription ids are %r" % (cn, m[0], m[1], sorted(own.get(cn, [])))})
+            if m[0] == "EVENT":
+                ev = m[2]
+                orig = known.get(ev.get("id")) if isinstance(ev, dict) else None
+                if orig is None or not same_json(ev, orig):
+                    viol.append({"case": cid, "clause": "served-verbatim", "sig": sig + "|" + cn,
+                                 "detail": "%s received an event that differs from the accepted one: %r" % (cn, diff(ev, orig) if orig else str(ev)[:80])})
+
+
+from ..schedmode import SchedMode  # noqa: E402
+
+SCHEDMODE = SchedMode(S_SCRIPTS, _s_build, _s_judge)
+
+
 def run_case(case):
+    if SCHEDMODE.is_case(case) and case[0] == "sched":
+        return SCHEDMODE.run(case)
     mode = case[0]
     extra = {}
     if mode == "cp":
@@ -497,7 +554,7 @@ def run_case(case):
 def coverage(tier, agg):
     npk = len(select(tier, PACK))
     return {
-        "rule": "code points: %d of %d packets of 256 consecutive Unicode scalar values (thorough: all 1,112,064 scalar values) in content, tag value "
+        "rule": ("code points: %d of %d packets of 256 consecutive Unicode scalar values (thorough: all 1,112,064 scalar values) in content, tag value "
                 "and tag name, each packet submitted as a signed event and read back through live push, stored REQ answer and HTTP /e/<id>; "
                 "subscription ids: packets of 48 scalar values as the sub id of a REQ (EVENT + EOSE must carry it verbatim); tag grammar: %d JSON "
                 "values at tag[0], tag[1], tag[2] plus empty tag / empty list ('if accepted'); kind grammar: %d special kinds (replaceable, deletion, "
@@ -507,13 +564,16 @@ def coverage(tier, agg):
                 "quote back in OK / NOTICE text (relay and challenge tags of correctly signed AUTH events, ids, sub ids and filter members of refused REQs, command "
                 "names). Oracle: stdlib json parse, "
                 "NIP-01 frame shape, sub id equal, event field-for-field equal (type-exact) and still authentic. A failing packet is shrunk to "
-                "single code points for the report." % (npk, len(packets(PACK)), len(TAG_ITEMS), len(KIND_GRAMMAR), len(SPECIAL_TAGS), len(SIDS), len(SID_NONSTR)),
+                "single code points for the report." + SCHEDMODE.rule() + ": every frame parses, carries one of the receiver's own subscription ids and an event equal to the accepted one") % (npk, len(packets(PACK)), len(TAG_ITEMS), len(KIND_GRAMMAR), len(SPECIAL_TAGS), len(SIDS), len(SID_NONSTR)),
         "backends": ["sql", "kv"],
     }
 
 
 def replay(desc):
-    r = run_case((desc["mode"], desc["backend"], desc["pos"], tuple(desc["packets"]), desc.get("tier", "quick")))
+    if desc.get("mode") == "sched":
+        r = run_case(SCHEDMODE.from_desc(desc))
+    else:
+        r = run_case((desc["mode"], desc["backend"], desc["pos"], tuple(desc["packets"]), desc.get("tier", "quick")))
     for v in r["viol"][:30]:
         print(v["clause"], v["detail"][:500])
     return r["viol"]
